@@ -241,6 +241,9 @@ func checkFilter(r *Run, prog *Program, a *Anchors, pfx string) {
 						}
 					} else {
 						mc, ok := reflCall(root, "MakeMap")
+						if !ok {
+							mc, ok = reflCall(root, "MakeMapWithSize") // same map, with a capacity hint
+						}
 						if !ok || symArgs(sm.St, mc)[0].Key() != (&Sym{K: sTypeOf, A: rv}).Key() {
 							probs = append(probs, "the result map is not reflect.MakeMap(input's type)")
 						}
